@@ -184,8 +184,13 @@ def run(ctx):
     fwd = inv = None
     if t1:
         fwd = table_check(ctx, "CLASSIFY", "u32->TagType", t1, S.MBI_TAG_TYPES, "TagType")
+    table_fn = t2
+    val0 = F.find(impl_self=TT, name="val", impl_trait=None)
+    if t2 and len(val0) == 1 and val0[0]["key"] in T.call_aliases(F):
+        # `u32::from(TagType)` forwards to `TagType::val`, which holds the table (the reference tree has it the other way round)
+        table_fn = val0[0]
     if t2:
-        inv = inverse_check(ctx, "CLASSIFY", "TagType->u32", t2, S.MBI_TAG_TYPES, TT)
+        inv = inverse_check(ctx, "CLASSIFY", "TagType->u32", table_fn, S.MBI_TAG_TYPES, TT)
     if fwd and inv:
         got, rest = fwd
         # round trip u32 -> TagType -> u32 by pieces
@@ -238,7 +243,10 @@ def run(ctx):
                   "TagTypeId::from(t) wraps u32::from(t)  (commutes with the direct conversion)", site(id4),
                   how="return term %s" % G.show(rt), why="return term %s" % G.show(rt))
     val = need(ctx, "TagType::val", impl_self=TT, name="val", impl_trait=None)
-    if val and t2:
+    if val and t2 and val["key"] in T.call_aliases(F):
+        ctx.ok("TERMS", "TagType::val", "TagType::val() == u32::from(*self): here `u32::from` is the one that forwards (its body is the single call "
+               "`value.val()`), and val() holds the table checked as TagType->u32", site(t2), how="forwarding body, no branch")
+    elif val and t2:
         rt, _ = ret_term(ctx, val)
         good = rt is not None and s(rt)[0] == "call" and s(rt)[1] == t2["key"] and s(rt)[2] == (("deref", ("arg", 1, "&" + TT)),)
         ctx.check(good, "TERMS", "TagType::val", "TagType::val() == u32::from(*self)", site(val),
@@ -573,13 +581,86 @@ def classify_local(F, body, tb, L, dom, total=True):
     return it, pcs
 
 
+def fb_search_form(ctx, F, inst):
+    """try_from written as a search: `[V1, V2, ..].into_iter().find(|v| *v as u8 == value).ok_or(Err(value))`.  Std contract of
+    find over an array iterator: the first element, in order, whose predicate holds.  With the predicate `discriminant as u8 ==
+    value` that is the table {discriminant(Vk) -> Vk} (first occurrence wins), everything else -> the error.  Returns
+    (input term, pieces) in the classifier's format, or None if the function is not of this form."""
+    from .. import an, chain as CH, select as SEL
+    from ..guard import N, arg
+    A = an.of(F, inst)
+    ex = CH.exits(A)
+    if len(ex) != 2:
+        return None
+    finds = [(bb, t) for bb, t in A.body.calls() if "Iterator>::find" in (M.callee_key(t) or "") or (M.callee_path(t) or "").endswith("Iterator::find")]
+    if len(finds) != 1:
+        return None
+    FD = N(A.tb.call_value(finds[0][1], finds[0][0]))
+    if FD[0] != "call" or len(FD[2]) != 2:
+        return None
+    it_, clo = FD[2]
+    it_ = it_[1] if it_[0] == "ref" else it_
+    while it_[0] == "call" and len(it_[2]) == 1 and "into_iter" in str(it_[1]):
+        it_ = it_[2][0]
+    if not (it_[0] == "aggr" and it_[1] == ("array",)):
+        return None
+    elems = [CL.variant_of(e) for e in it_[2]]
+    if not all(e and not e[3] for e in elems):
+        return None
+    cf = SEL.closure_fn(F, clo, inst)
+    if cf is None:
+        return None
+    rt, _ = an.of(F, cf).ret()
+    if rt is None:
+        return None
+    r = SEL._bind_captures(N(rt), clo)
+    # *v as u8 == value
+    ok_pred = False
+    inp = None
+    if r[0] == "bin" and r[1] == "Eq":
+        for (x, y) in ((r[2], r[3]), (r[3], r[2])):
+            xs = x
+            if xs[0] == "cast" and xs[1] == "IntToInt" and xs[3] == "u8":
+                xs = xs[2]
+            if xs[0] == "discr" and SEL.unref(xs[1]) in (arg(2), ("deref", arg(2)), ("deref", ("deref", arg(2)))) and SEL.unref(y) in (arg(1), ("deref", arg(1))):
+                ok_pred = True
+    if not ok_pred:
+        return None
+    errs = [e for e in ex if e.kind == "Err"]
+    oks = [e for e in ex if e.kind == "Ok"]
+    if len(errs) != 1 or len(oks) != 1 or not CH.own_is_variant(errs[0], FD, 0) or not CH.own_is_variant(oks[0], FD, 1):
+        return None
+    if N(oks[0].payload) != CH.payload_of(FD, 1):
+        return None
+    adt = F.adts.get(elems[0][1]) or {}
+    discr = {v["name"]: v.get("discr") for v in adt.get("variants", [])}
+    raw_in = ("arg", 1, "u8")
+    pieces = []
+    taken = ()
+    for e in elems:
+        d = discr.get(e[2])
+        if d is None or not (0 <= d <= 255):
+            return None
+        iv = CL.minus(((d, d),), taken)
+        taken = CL.union(taken, ((d, d),))
+        if iv:
+            pieces.append((iv, ("aggr", ("adt", "core::result::Result", "Ok", ("0",)), (("aggr", ("adt", e[1], e[2], ()), ()),)), oks[0].bb))
+    pieces.append((CL.minus(((0, 255),), taken), errs[0].val, errs[0].bb))
+    ctx.note("FramebufferTypeId::try_from is a first-match search over %s by discriminant: read as the table {discriminant -> variant}" % [e[2] for e in elems])
+    return raw_in, pieces
+
+
 def fb_table(ctx, inst):
     F = ctx.F()
     name = "u8->FramebufferTypeId"
-    try:
-        it, pieces, tb = CL.classify(F, inst, domain=((0, 255),))
-    except CL.Unrecognised as e:
-        return ctx.fail("CLASSIFY", name + ":shape", "try_from is a comparison-only classifier", site(inst), "UNRECOGNISED: %s" % e)
+    sf = fb_search_form(ctx, F, inst)
+    if sf is not None:
+        it, pieces = sf
+    else:
+        try:
+            it, pieces, tb = CL.classify(F, inst, domain=((0, 255),))
+        except CL.Unrecognised as e:
+            return ctx.fail("CLASSIFY", name + ":shape", "try_from is a comparison-only classifier", site(inst), "UNRECOGNISED: %s" % e)
     ctx.check(s(it) == ("arg", 1, "u8"), "CLASSIFY", name + ":input", "try_from classifies its u8 argument", site(inst),
               how=G.show(it), why=G.show(it))
     got, err = {}, ()
